@@ -40,6 +40,11 @@ CHECKS.update({
          'Differential generated-input search; the strict reader is an independent implementation of the NDN-TLV evolvability rules with per-packet field tables. 10^4 (quick) to >10^6 (thorough) inputs. One known finding is recognised precisely (result equals the strict reading with the clamping defect emulated).',
          'Trusts pbt/pkt.py strict readers; fixed Nonce/HopLimit widths and component type ranges are not demanded (the property does not list them).', '6/C07'),
 })
+CHECKS.update({
+ 'C08': ('Hypothesis-generated TlvModel classes (type(), nesting, repeated/map fields, IncludeBase inheritance with overrides) and descriptions extracted from every shipped model; oracles: independent encoder byte equality, announced length, strict walk, decode equality (__eq__ and normalised walk), metamorphic insertion of unknown non-critical/critical elements at every gap, repeated/swapped critical fields',
+         'Generated-input exploration against an independent encoder plus exhaustive per-case gap enumeration for the evolvability rules; thousands (quick) to >10^5 (thorough) model/value pairs.',
+         'Trusts the independent encoder in pbt/checks/c08_tlv_model.py; field defaults None; map keys uint/text.', '6/C08'),
+})
 NOT_YET = {}
 def main():
     props = [json.loads(l) for l in open(os.path.join(ROOT, 'properties.jsonl'))]
